@@ -42,10 +42,17 @@ def _edits(m: dict):
 
 
 def _run_one(i: int):
-    m = (_MOD.MUTANTS + getattr(_MOD, 'NEUTRAL', []))[i]
+    from .variants import TRANSFORMS, variant
+
+    local = _MOD.MUTANTS + getattr(_MOD, 'NEUTRAL', [])
+    if i >= len(local):
+        gname = list(TRANSFORMS)[i - len(local)]
+        m = {'name': f'whole package: {gname} ({(TRANSFORMS[gname]().__doc__ or "").strip()})'}
+    else:
+        m = local[i]
     neutral = i >= len(_MOD.MUTANTS)
     try:
-        v = _apply(_PROG, _edits(m))
+        v = variant(_PROG, gname) if i >= len(local) else _apply(_PROG, _edits(m))
         if v is None:
             return (m['name'], 'skipped', 'anchor text not found exactly once')
         ctx = Ctx(v, _PROP, 'thorough')
@@ -73,10 +80,10 @@ def _run_one(i: int):
 
 def run_selftest(prog: Program, prop: str, mod) -> dict:
     global _PROG, _MOD, _PROP, _BASE
+    from .variants import TRANSFORMS
+
     muts = getattr(mod, 'MUTANTS', [])
-    neut = getattr(mod, 'NEUTRAL', [])
-    if not muts and not neut:
-        return {'selftest': 'no variants registered for this property'}
+    neut = list(getattr(mod, 'NEUTRAL', [])) + [{'name': g} for g in TRANSFORMS]
     base = Ctx(prog, prop, 'thorough')
     mod.run(base)
     _PROG, _MOD, _PROP = prog, mod, prop
